@@ -28,7 +28,7 @@ fixtab = "\n".join(f"| `{l.split(' ',1)[0]}` | {l.split(' ',1)[1]} |" for l in f
 tpl = re.sub(r"\| commit \| what \|\n\|---\|---\|\n(?:\|.*\|\n)+", "| commit | what |\n|---|---|\n" + fixtab + "\n", tpl)
 
 rows = []
-missed1 = []; nfi1 = []; missed3 = []; nfi3 = []; missed4 = []; nfi4 = []; missed5 = []; nfi5 = []; missed6 = []; nfi6 = []; missed7 = []; nfi7 = []; missed8 = []; nfi8 = []; missed9 = []; nfi9 = []; missed10 = []; nfi10 = []
+missed1 = []; nfi1 = []; missed3 = []; nfi3 = []; missed4 = []; nfi4 = []; missed5 = []; nfi5 = []; missed6 = []; nfi6 = []; missed7 = []; nfi7 = []; missed8 = []; nfi8 = []; missed9 = []; nfi9 = []; missed10 = []; nfi10 = []; missed11 = []; nfi11 = []
 for f in sorted(glob.glob(V + '/seeded/*/meta.json')):
     m = json.load(open(f))
     ch = re.sub(r'^(Change|C\d\d change|#+)\s*\d*\s*[-:–—.]?\s*', '', m['change']).strip()
@@ -51,6 +51,9 @@ for f in sorted(glob.glob(V + '/seeded/*/meta.json')):
     if m.get('round') == 10:
         if first == 'missed': missed10.append(m['id'])
         if first == 'caught, no input': nfi10.append(m['id'])
+    if m.get('round') == 11:
+        if first == 'missed': missed11.append(m['id'])
+        if first == 'caught, no input': nfi11.append(m['id'])
     elif m.get('round') == 7:
         if first == 'missed': missed7.append(m['id'])
         if first == 'caught, no input': nfi7.append(m['id'])
@@ -79,7 +82,7 @@ for f in sorted(glob.glob(V + '/seeded/*/meta.json')):
         stren.append(f"* **{m['id']}** – {sw}")
 seeded = f'''### 13.7 Seeded breaking changes and which checks catch them
 
-Four hundred changes, twenty per property, in ten rounds.  Each was written by a fresh sub-agent that saw
+Four hundred and forty changes, twenty-two per property, in eleven rounds.  Each was written by a fresh sub-agent that saw
 only the text of one property and a scratch worktree (nothing from /verif), was asked for a
 plausible maintainer edit that needs something specific to manifest, and was confirmed by hand in
 a scratch worktree: applies to HEAD, builds, the whole existing suite passes, the demonstration
@@ -197,8 +200,20 @@ look.  {40 - len(missed10) - len(nfi10)} of 40 were caught at once with a concre
 obligation or correspondence ({', '.join(nfi10)}) and {len(missed10)} were not reported by the first run ({', '.join(missed10)}): a
 render that writes the escaped text back into the string literal node (only a second render of the
 same page shows it) was missed, and the check of the change that makes the parser spin on every
-unfinished block had to be stopped after 48 minutes.  Now all four hundred are reported by the quick
-check of their own property with a concrete failing input as replay.
+unfinished block had to be stopped after 48 minutes.
+
+Round 11 (ids `-21`, `-22`) asked for two kinds of commit that reviewers wave through: change 1 a
+*modernisation or clean-up refactor* (a hand-written loop replaced by a helper of the standard library —
+`strings.Cut`, `strings.NewReplacer`, `slices.Compact`, `reflect.VisibleFields`, generics, `append` for
+`make`+`copy` —, a switch rewritten as a table, two helpers folded into one), change 2 a small *new feature*
+squeezed into existing code (octal and hex literals, `@if (x)` with a blank, `round(precision)`, a
+"did you mean" hint, case-insensitive directives, snake_case aliases of built-ins, hidden files skipped,
+`loop` inside `@for`, a component's path in its errors) that changes what templates without the feature
+do.  {40 - len(missed11) - len(nfi11)} of 40 were caught at once with a concrete failing input, {len(nfi11)} only as a broken
+obligation or correspondence ({', '.join(nfi11)}) and {len(missed11)} were missed ({', '.join(missed11)}): a blank
+and a parenthesis at the start of a branch's text, and a slot passed twice with another slot in between.
+Now all four hundred and forty are reported by the quick check of their own property with a concrete
+failing input as replay.
 
 What was added for the ones not caught (or caught without an input) at first:
 
